@@ -4,6 +4,7 @@
 //! trusted: R5: the generics are instantiated as at the payment call site: H = reversed iterator over a Vec<RouteHop> (hop = &hops[n-1-idx]), OP = the Payload enum below (a field skeleton of msgs::OutboundOnionPayload keeping amounts, expiries and next-hop ids; its new_* constructors are written here from the `impl OnionPayload for msgs::OutboundOnionPayload` in the same file and are NOT extracted: recipient fields, keysend preimage, encrypted TLVs and packets are dropped), F = "insert into the result vector at the back / at the front" (what build_onion_payloads's closure does); PathHop accessors of &RouteHop are extracted
 //! trusted: R6: `for (idx, hop) in hops.rev().enumerate()` and `for (i, blinded_hop) in hops.iter().enumerate()` become index loops; push_back / push_front are external_body wrappers of Vec::push / Vec::insert(0, _) with the sequence semantics
 //! trusted: env: APIError::InvalidRoute carries no message (rewrite of `err: <string>`); RecipientOnionFields skeleton {total_mpp_amount_msat, custom_tlvs}; PublicKey, PaymentPreimage, InvoiceRequest, TrampolineOnionPacket, BlindedHop opaque/skeleton; assume_specification for Option::take (std definition)
+//! trusted: process_failure_packet: AttributionData skeleton with external_body shift_right (verified for the real type in u14 / Kani); update_attribution_data external_body (leaves attribution data present and the data untouched: get_or_insert + update); update_fail_htlc_wire_len external_body returning the uninterpreted wire size (a function of the data length and the presence of attribution data); R8: `if let Some(ref mut x) = e { .. }` -> match on &mut e
 //! assume: every hop's fee_msat <= 21e17 (the total supply in msat): without it `cur_value_msat += hop.fee_msat()` can overflow u64 before the limit test (observation O5 in DESIGN)
 //! assume: the contract is for a path without blinded or trampoline tail (blinded_tail is None) whose final hop carries a non-zero amount; the other arms are kept in the verified text but unreachable under this precondition and not claimed
 use vstd::prelude::*;
@@ -173,6 +174,38 @@ pub proof fn lemma_sums_nonneg(hops: Seq<RouteHop>, from: int)
     cur_value_msat += hop.fee_msat();
 //@with
     if idx != 1 { cur_value_msat += hop.fee_msat(); }
+//@end
+
+// ---- re-wrapping a failure at a relaying hop: when the attribution data (hold times) survives ----
+pub struct AttributionData { pub hold_times: Vec<u8>, pub hmacs: Vec<u8> }
+impl AttributionData {
+    #[verifier::external_body] pub fn shift_right(&mut self) { unimplemented!() }
+}
+pub struct OnionErrorPacket { pub data: Vec<u8>, pub attribution_data: Option<AttributionData> }
+// wire size of the update_fail_htlc carrying this packet (type + fixed fields + data + the optional attribution TLV): a function
+// of the data length and of whether attribution data is present (attribution data has a fixed size)
+pub uninterp spec fn fail_msg_wire_len(data_len: int, with_attribution: bool) -> int;
+#[verifier::external_body]
+pub fn update_fail_htlc_wire_len(onion_error: &OnionErrorPacket) -> (r: usize)
+    ensures r as int == fail_msg_wire_len(onion_error.data@.len() as int, onion_error.attribution_data is Some)
+{ unimplemented!() }
+#[verifier::external_body]
+pub fn update_attribution_data(onion_error_packet: &mut OnionErrorPacket, shared_secret: &[u8], hold_time: u32)
+    ensures final(onion_error_packet).attribution_data is Some, final(onion_error_packet).data@ == old(onion_error_packet).data@
+{ unimplemented!() }
+//@const lightning/src/ln/peer_channel_encryptor.rs LN_MAX_MSG_LEN
+//@extract lightning/src/ln/onion_utils.rs :: fn process_failure_packet
+//@rw R8
+    if let Some(ref mut attribution_data) = onion_error.attribution_data { attribution_data.shift_right(); }
+//@with
+    match &mut onion_error.attribution_data { Some(attribution_data) => { attribution_data.shift_right(); }, None => {} }
+//@ensures P C14 a-relaying-hop-keeps-the-hold-times-whenever-the-re-wrapped-failure-still-fits-a-message-and-drops-them-only-otherwise
+    final(onion_error).data@ == old(onion_error).data@,
+    final(onion_error).attribution_data is Some <==> fail_msg_wire_len(old(onion_error).data@.len() as int, true) <= 65535,
+//@mutant hold_times_dropped_at_exactly_the_maximum
+    > LN_MAX_MSG_LEN
+//@with
+    >= LN_MAX_MSG_LEN
 //@end
 }
 fn main() {}
